@@ -22,7 +22,7 @@ use crate::oracle::vsign::TYPES;
 use crate::props::c16::{any_msg_strategy, wire_of};
 use crate::repr::{ref_classify, M};
 
-pub const RULE: &str = "(A) controller level: 1..3 virtual signs (mixed flip styles) x sign type (small transfer sizes 30x7, 23x10, 30x10, 40x12 mostly, the others at a low rate) x controller address (a present sign, sometimes an absent address) x sequences of 1..8 operations (configure, configure_if_needed, send_pages with 0..2 pages of random pixels, show_loaded_page, load_next_page, shut_down, reconfigure as another type) run twice from identical virtual buses: directly, and through Sign -> SerialSignBus -> byte stream -> Odk -> virtual bus (single-threaded: the client port pumps Odk::process_message whenever a complete line has been written); every operation must succeed on one path exactly when it succeeds on the other (same flip style reported) and all virtual signs must end in the same state, type and pages. (B) bridge level: single lines injected at an Odk over a recording bus that replies / stays silent / fails: every message kind encoded, unknown frames, and invalid or damaged lines; the bus must see exactly the table interpretation of a decodable line once and nothing for an undecodable one (Communication error), the port must receive exactly the reply's frame with CRLF iff the bus replied, a bus failure must give the Bus error and write nothing. Non-trivial = (A) a sequence with >= 2 operations and >= 1 page transfer, (B) a line that decodes to a specific message or is an encoded frame with one damaged character; distinct by hash";
+pub const RULE: &str = "(A) controller level: 1..3 virtual signs (mixed flip styles) x sign type (small transfer sizes 30x7, 23x10, 30x10, 40x12 mostly, the others at a low rate) x controller address (a present sign, sometimes an absent address) x sequences of 1..8 operations (configure, configure_if_needed, send_pages with 0..2 pages of random pixels, show_loaded_page, load_next_page, shut_down, reconfigure as another type) run twice from identical virtual buses: directly, and through Sign -> SerialSignBus -> byte stream -> Odk -> virtual bus (single-threaded: the client port pumps Odk::process_message whenever a complete line has been written); every operation must succeed on one path exactly when it succeeds on the other (same flip style reported) and all virtual signs must end in the same state, type and pages. (B) bridge level: single lines injected at an Odk over a recording bus that replies / stays silent / fails: every message kind encoded, unknown frames, and invalid or damaged lines; the bus must see exactly the table interpretation of a decodable line once and nothing for an undecodable one (Communication error), the port must receive exactly the reply's frame with CRLF iff the bus replied, a bus failure must give the Bus error and write nothing; the same per line for sessions of 1..6 lines through ONE Odk instance (nothing may leak from an undecodable line into the next). Non-trivial = (A) a sequence with >= 2 operations and >= 1 page transfer, (B) a line that decodes to a specific message or is an encoded frame with one damaged character; distinct by hash";
 pub const ASSUMPTIONS: &[&str] = &[
     "the byte stream between the two serial ports is an in-memory pipe owned by the harness; Odk::process_message is pumped in the writer's thread when a full line has been written (no real device, no second thread)",
     "pacing sleeps of the serial bus are real, so paced sequences run on 64 threads",
@@ -404,6 +404,142 @@ pub fn check_bridge(c: &BridgeCase, st: &mut Stats) -> Result<(), String> {
     Ok(())
 }
 
+// bridge sessions: several lines through ONE Odk instance ---------------------------------------
+
+#[derive(Serialize, Deserialize, Debug, Clone, PartialEq, Eq, Hash)]
+pub struct BridgeSession {
+    /// (line without terminator, what the bus does if the line reaches it)
+    pub lines: Vec<(Vec<u8>, BusBehaviour)>,
+}
+
+struct ScriptedRecBus {
+    seen: Rc<RefCell<Vec<M>>>,
+    behaviours: Rc<RefCell<VecDeque<BusBehaviour>>>,
+}
+impl SignBus for ScriptedRecBus {
+    fn process_message<'a>(&mut self, message: Message<'_>) -> Result<Option<Message<'a>>, Box<dyn std::error::Error + Send + Sync>> {
+        self.seen.borrow_mut().push(M::from_message(&message));
+        match self.behaviours.borrow().front().cloned().unwrap_or(BusBehaviour::Silent) {
+            BusBehaviour::Reply(m) => Ok(Some(m.to_message())),
+            BusBehaviour::Silent => Ok(None),
+            BusBehaviour::Fail => Err("injected bus failure".into()),
+        }
+    }
+}
+
+pub fn check_bridge_session(c: &BridgeSession, st: &mut Stats) -> Result<(), String> {
+    let mut tape = vec![];
+    let mut ends = vec![];
+    for (l, _) in &c.lines {
+        tape.extend(l.iter().copied().filter(|&b| b != b'\n'));
+        tape.extend_from_slice(b"\r\n");
+        ends.push(tape.len());
+    }
+    let port = TestPort::with_state(PortState::new(tape.clone()));
+    let h = port.handle();
+    let seen = Rc::new(RefCell::new(vec![]));
+    let behaviours = Rc::new(RefCell::new(VecDeque::new()));
+    let mut odk = Odk::try_new(port, ScriptedRecBus { seen: seen.clone(), behaviours: behaviours.clone() }).map_err(|e| format!("Odk::try_new failed: {e}"))?;
+    let mut start = 0usize;
+    let mut want_written: Vec<u8> = vec![];
+    let mut after_bad = false;
+    let mut good_after_bad = false;
+    for (i, (_, behaviour)) in c.lines.iter().enumerate() {
+        behaviours.borrow_mut().clear();
+        behaviours.borrow_mut().push_back(behaviour.clone());
+        let seen_before = seen.borrow().len();
+        let r = catch(|| odk.process_message()).map_err(|p| format!("line {i}: Odk::process_message panicked: {p}"))?;
+        st.eval();
+        let line = &tape[start..ends[i]];
+        let s = h.borrow();
+        if s.pos != ends[i] {
+            return Err(format!("line {i}: the bridge is at offset {} of {} but line {i} ends at {}", s.pos, show_bytes(&tape), ends[i]));
+        }
+        let new_seen: Vec<M> = seen.borrow()[seen_before..].to_vec();
+        let note = if after_bad { " (an earlier line on this bridge was undecodable)" } else { "" };
+        match ref_decode(line) {
+            RefDecode::Ok { addr, ty, data } => {
+                let want = ref_classify(addr, ty, &data);
+                if new_seen != vec![want.clone()] {
+                    return Err(format!(
+                        "line {i} {} decodes to {} but the bus saw {:?}{note}; result {r:?}",
+                        show_bytes(line),
+                        want.short(),
+                        new_seen.iter().map(|m| m.short()).collect::<Vec<_>>()
+                    ));
+                }
+                match behaviour {
+                    BusBehaviour::Reply(m) => {
+                        want_written.extend_from_slice(&wire_of(m));
+                        want_written.extend_from_slice(b"\r\n");
+                        if r.is_err() {
+                            return Err(format!("line {i}: the bus replied but the bridge returned {r:?}{note}"));
+                        }
+                    }
+                    BusBehaviour::Silent => {
+                        if r.is_err() {
+                            return Err(format!("line {i}: the bus stayed silent but the bridge returned {r:?}{note}"));
+                        }
+                    }
+                    BusBehaviour::Fail => {
+                        if !matches!(r, Err(OdkError::Bus { .. })) {
+                            return Err(format!("line {i}: the bus failed but the bridge returned {r:?}{note}"));
+                        }
+                    }
+                }
+                if after_bad {
+                    good_after_bad = true;
+                }
+            }
+            _ => {
+                if !matches!(r, Err(OdkError::Communication { .. })) {
+                    return Err(format!("line {i} {} cannot be decoded but the bridge returned {r:?}", show_bytes(line)));
+                }
+                if !new_seen.is_empty() {
+                    return Err(format!("line {i} {} cannot be decoded but the bus saw {:?}", show_bytes(line), new_seen.iter().map(|m| m.short()).collect::<Vec<_>>()));
+                }
+                after_bad = true;
+            }
+        }
+        if s.written != want_written {
+            return Err(format!(
+                "after line {i} the port has received {} in total, expected {}{note}",
+                show_bytes(&s.written),
+                show_bytes(&want_written)
+            ));
+        }
+        start = ends[i];
+    }
+    if c.lines.len() >= 2 {
+        st.nontrivial(h64(c));
+    }
+    st.class("bridge-session");
+    if good_after_bad {
+        st.class("bridge-session:valid-line-after-an-undecodable-one");
+    }
+    Ok(())
+}
+
+fn bridge_session_strategy() -> impl Strategy<Value = BridgeSession> {
+    let line = prop_oneof![
+        8 => any_msg_strategy().prop_map(|m| wire_of(&m)),
+        2 => (any_msg_strategy(), any::<u16>(), proptest::sample::select(b"0123456789ABCDEFabcdef:G\r ".to_vec())).prop_map(|(m, sel, ch)| {
+            let mut w = wire_of(&m);
+            let i = crate::engine::pick_idx(sel, w.len());
+            w[i] = ch;
+            w
+        }),
+        1 => proptest::collection::vec(any::<u8>(), 0..16),
+        1 => Just(vec![]),
+    ];
+    let bus = prop_oneof![
+        4 => any_msg_strategy().prop_map(BusBehaviour::Reply),
+        3 => Just(BusBehaviour::Silent),
+        1 => Just(BusBehaviour::Fail),
+    ];
+    proptest::collection::vec((line, bus), 1..=6).prop_map(|lines| BridgeSession { lines })
+}
+
 // ---------------------------------------------------------------------------------------
 
 fn path_strategy() -> impl Strategy<Value = PathCase> {
@@ -464,11 +600,16 @@ fn bridge_strategy() -> impl Strategy<Value = BridgeCase> {
 
 pub fn run(ctx: &Ctx) {
     run_generated_n(ctx, "bridge", ctx.tier.pick(200_000, 3_000_000), ctx.workers, bridge_strategy, |c, st| check_bridge(c, st));
+    run_generated_n(ctx, "bridge-session", ctx.tier.pick(100_000, 1_500_000), ctx.workers, bridge_session_strategy, |c, st| check_bridge_session(c, st));
     crate::engine::run_generated_opts(ctx, "serial-path", ctx.tier.pick(3_000, 60_000), 64, 150, path_strategy, |c, st| check_path(c, st));
 }
 
 pub fn replay(part: &str, case: &Value) -> Result<(), String> {
     let mut st = Stats::new();
+    if part == "bridge-session" {
+        let c: BridgeSession = serde_json::from_value(case.clone()).map_err(|e| format!("bad case: {e}"))?;
+        return check_bridge_session(&c, &mut st);
+    }
     if part == "bridge" {
         let c: BridgeCase = serde_json::from_value(case.clone()).map_err(|e| format!("bad case: {e}"))?;
         return check_bridge(&c, &mut st);
